@@ -78,7 +78,7 @@ def U():
             if not size:
                 c, r = self.fixed
             elif len(size) == 1:
-                c, r = size[0], self.nrows
+                c, r = size[0], (self.nrows_narrow if (self.thr is not None and size[0] < self.thr) else self.nrows)
             else:
                 c, r = size
             return urwid.SolidCanvas("x", max(c, 0), max(r, 0))
@@ -178,6 +178,11 @@ class C19(core.Check):
         "with min_width = 0 a weighted column can get zero width; the 'fills exactly' and 'focus visible' clauses are then "
         "recorded as observations, not judged",
         "PACK children are represented by the width/rows they report; the ColumnsWarning/PileWarning fallback paths are not modelled",
+        "child widgets render a canvas of exactly the size they are handed (stub children; the widget size contract is C01)",
+        "histories: assignments to the plain attributes dividechars / min_width / h_sep / v_sep / align are followed by _invalidate() "
+        "(without it the Columns width cache is stale: proved refuted on the model, reported as an observation)",
+        "not modelled: Pile.get_item_rows in flow mode (no arithmetic: every item reports its own rows) and the FIXED-size paths "
+        "_get_fixed_column_sizes/_get_fixed_rows_sizes (float coefficient arithmetic; the statement speaks of an available size)",
     ]
 
     # ------------------------------------------------------------------ implementation
@@ -342,10 +347,43 @@ class C19(core.Check):
         l, r, t, b = ov.calculate_padding_filler(size, False)
         tws = ov.top_w_size(size, l, r, t, b)
         asked = [a[1][0] for a in top_w.asked if a[0] == "rows" and a[1]]
-        return {"lrtb": [l, r, t, b], "tws": list(tws), "rows_asked_at": asked[-1] if asked else None}
+        res = {"lrtb": [l, r, t, b], "tws": list(tws), "rows_asked_at": asked[-1] if asked else None, "box": None}
+        # where the (trimmed) top canvas ends up in the rendered overlay: bounding box of the stub's 'x' cells
+        if not tws:
+            tw, th = c["pw"], c["ph"]
+        elif len(tws) == 1:
+            tw, th = tws[0], (c.get("frn", c["fr"]) if tws[0] < c.get("thr", 0) else c["fr"])
+        else:
+            tw, th = tws
+        if self.ov_box_guard(c, max(l, 0), t, tw + min(0, l) + min(0, r), th + min(0, t) + min(0, b)):
+            try:
+                canv = ov.render(size, False)
+                cells = [(x, y) for y, row in enumerate(canv.text) for x, ch in enumerate(row.decode("ascii", "replace")) if ch == "x"]
+                if cells:
+                    xs = [p[0] for p in cells]
+                    ys = [p[1] for p in cells]
+                    solid = len(cells) == (max(xs) - min(xs) + 1) * (max(ys) - min(ys) + 1)
+                    res["box"] = [min(xs), min(ys), max(xs) - min(xs) + 1, max(ys) - min(ys) + 1] if solid else "not-a-rectangle"
+                else:
+                    res["box"] = "nothing-shown"
+                if canv.cols() != c["maxcol"] or canv.rows() != c["maxrow"]:
+                    res["box"] = "canvas-size"
+            except Exception as e:
+                res["box"] = "render:" + errname(e)
+        return res
+
+    @staticmethod
+    def ov_box_guard(c, x, y, w, h):
+        """the placement is observed when something of the top widget is visible on a non-empty screen"""
+        return (c["maxcol"] >= 1 and c["maxrow"] >= 1 and w >= 1 and h >= 1 and x >= 0 and y >= 0
+                and x + w <= c["maxcol"] and y + h <= c["maxrow"])
 
     def observe_grid(self, gf, maxcol, cached):
         urwid = U()["urwid"]
+        try:
+            natw = gf.pack(())[0]                    # _get_maxcol(()): the natural width
+        except Exception as e:
+            natw = "err:" + errname(e)
         d = gf.get_display_widget((maxcol,)) if cached else gf.generate_display_widget((maxcol,))
         rows = []
         if isinstance(d, urwid.Pile):
@@ -358,14 +396,20 @@ class C19(core.Check):
                             return {"err": "cell option " + str(t)}
                         row.append([cw.tag, amount])
                     pw = w.width if isinstance(w.width, int) else -999
-                    rows.append({"pad": pw, "cells": row, "hsep": colw.dividechars})
-        return {"rows": rows}
+                    # how the row itself is laid out in maxcol columns
+                    le, ri = w.padding_values((maxcol,), False)
+                    try:
+                        inner = list(colw.column_widths((maxcol - le - ri,)))
+                    except Exception as e:
+                        inner = "err:" + errname(e)
+                    rows.append({"pad": pw, "cells": row, "hsep": colw.dividechars, "lr": [le, ri], "inner": inner})
+        return {"rows": rows, "natw": natw}
 
     def impl_grid(self, c):
         urwid = U()["urwid"]
         Spy = U()["Spy"]
         cells = [Spy(("flow",), tag=i) for i in range(len(c["cells"]))]
-        gf = urwid.GridFlow([], c["cw"], c["hsep"], c["vsep"], "left")
+        gf = urwid.GridFlow([], c["cw"], c["hsep"], c["vsep"], c.get("align", "left"))
         for w, width in zip(cells, c["cells"]):
             gf.contents.append((w, gf.options("given", width)))
         if cells:
@@ -599,6 +643,33 @@ class C19(core.Check):
         if k == "ov":
             return [8] + self.enc_padcfg(c) + self.enc_fillcfg(c) + [c["maxcol"], c["maxrow"], c["pw"], c["ph"], c["fr"],
                                                                       c.get("frn", c["fr"]), c.get("thr", 0)]
+        if k == "colseq":
+            # the stateful model (width cache + _invalidate) runs the history itself
+            def pc(kind, a):
+                return [CK[kind], a, 1 if kind == "packflow" else 0]
+            out = [11, len(c["opts"])]
+            for kind, a in c["opts"]:
+                out += pc(kind, a)
+            out += [c["div"], c["minw"], c["focus"]]
+            for st in c["steps"]:
+                op = st[0]
+                if op == "layout":
+                    out += [1, st[1]]
+                elif op == "focus":
+                    out += [2, st[1]]
+                elif op == "setpack":
+                    out += [3, st[1], st[2]]
+                elif op == "setopt":
+                    out += [4, st[1]] + pc(st[2], st[3])
+                elif op == "append":
+                    out += [5] + pc(st[1], st[2])
+                elif op == "poplast":
+                    out += [6]
+                elif op == "div":
+                    out += [7, st[1], 9]       # impl_colseq: attribute assignment followed by _invalidate()
+                elif op == "minw":
+                    out += [8, st[1], 9]
+            return out
         if k in self.SEQ:
             out = [10]
             for cfg in self.seq_configs(c):
@@ -606,7 +677,7 @@ class C19(core.Check):
                 out += [len(sub)] + sub
             return out
         if k == "grid":
-            return [9, c["maxcol"], c["hsep"], len(c["cells"])] + list(c["cells"])
+            return [9, c["maxcol"], c["hsep"], AT[c.get("align", "left")], c["cw"], c["focus"], len(c["cells"])] + list(c["cells"])
         raise core.MachineryError("unknown case kind " + str(k))
 
     def decode(self, c, ints):
@@ -663,17 +734,24 @@ class C19(core.Check):
                 n = ints[5]
                 l_, r_ = ints[1:3]
                 asked = (c["maxcol"] - l_ - r_) if (c["wt"] != "pack" and c["ht"] == "pack") else None
-                return {"lrtb": ints[1:5], "tws": ints[6:6 + n], "rows_asked_at": asked}
+                x, y, w, h = ints[6 + n:10 + n]
+                return {"lrtb": ints[1:5], "tws": ints[6:6 + n], "rows_asked_at": asked,
+                        "box": [x, y, w, h] if self.ov_box_guard(c, x, y, w, h) else None}
             if k == "grid":
                 it = iter(ints)
+                natw = next(it)
                 nrows = next(it)
                 rows = []
                 for _ in range(nrows):
-                    pw = next(it)
+                    pw, le, ri = next(it), next(it), next(it)
                     m = next(it)
                     row = [[next(it), next(it)] for _ in range(m)]
-                    rows.append({"pad": pw, "cells": row, "hsep": c["hsep"]})
-                return {"rows": rows}
+                    if next(it) == 0:
+                        inner = [next(it) for _ in range(next(it))]
+                    else:
+                        inner = "err:" + ERRN.get(next(it), "?")
+                    rows.append({"pad": pw, "cells": row, "hsep": c["hsep"], "lr": [le, ri], "inner": inner})
+                return {"rows": rows, "natw": natw}
         except (IndexError, StopIteration):
             return bad
         return bad
@@ -860,6 +938,14 @@ class C19(core.Check):
         l, r, t, b = res["lrtb"]
         tws = res["tws"]
         msgs = []
+        box = res.get("box")
+        if isinstance(box, str):
+            msgs.append(f"ov: rendering the overlay: {box}")
+        elif box:
+            x, y, w, h = box
+            # margins plus the visible part of the child exactly fill the available space
+            if x != max(l, 0) or y != max(t, 0) or x + w + max(r, 0) != c["maxcol"] or y + h + max(b, 0) != c["maxrow"]:
+                msgs.append(f"ov: top widget shown at {box}, margins are ({l},{r},{t},{b}) in {c['maxcol']}x{c['maxrow']}")
         if c["wt"] != "pack" and c["ht"] == "pack":
             # the flow top widget's height depends on the width it is rendered with
             c = dict(c)
@@ -1007,6 +1093,17 @@ class C19(core.Check):
                 msgs.append(f"grid: row needs {need} > {c['maxcol']} columns")
             if row["pad"] != need:
                 msgs.append(f"grid: row padded to width {row['pad']}, cells need {need}")
+            if "inner" in row and all(c["cells"][i] <= c["maxcol"] for i, _ in row["cells"]):
+                # the row's own Columns must show every cell at that width (nothing dropped or cut off)
+                if row["inner"] != [w for _, w in row["cells"]]:
+                    msgs.append(f"grid: the row shows its cells at widths {row['inner']}, configured {[w for _, w in row['cells']]}")
+                le, ri = row["lr"]
+                if le < 0 or ri < 0 or le + need + ri != c["maxcol"]:
+                    msgs.append(f"grid: row of width {need} placed with margins ({le},{ri}) in {c['maxcol']} columns")
+        if "natw" in res and c["cells"] and all(w == c["cw"] for w in c["cells"]):
+            n = len(c["cells"])
+            if res["natw"] != n * c["cw"] + (n - 1) * c["hsep"]:
+                msgs.append(f"grid: natural width {res['natw']} for {n} cells of width {c['cw']} separated by {c['hsep']}")
         return msgs
 
     # ------------------------------------------------------------------ bookkeeping
@@ -1073,6 +1170,8 @@ class C19(core.Check):
         elif k == "pile":
             inc(dist, "pile:n=%d" % len(c["opts"]))
         elif k in ("clrp", "pad", "ov"):
+            if k == "ov" and isinstance(res.get("box"), list):
+                inc(dist, "ov:placement-of-the-top-canvas-observed")
             inc(dist, f"{k}:width={c['wt']}")
             inc(dist, f"{k}:align={c['at']}")
         elif k in ("ctbf", "fill"):
@@ -1565,21 +1664,26 @@ class C19(core.Check):
 
 
 C19.level_text = (
-    "Proved in Coq for ALL integers (no bound on sizes, weights or list lengths).  About the definitions re-translated from the "
-    "source on every run: int_scale range / monotonicity / endpoints / round-half-up; calculate_left_right_padding and "
+    "Proved in Coq for ALL integers (no bound on sizes, weights, list or history lengths).  About the definitions re-translated "
+    "from the source on every run: int_scale range / monotonicity / endpoints / round-half-up; calculate_left_right_padding and "
     "calculate_top_bottom_filler: margins never negative and child = min(requested, available) outside clipping mode for every "
     "input, margins + child = available exactly in clipping mode, and when the child fits beside the fixed margins it gets the "
     "requested size, both margins are kept and the spare space is split by the alignment percentage to within 1/2.  About the "
     "hand model of Columns.column_widths, for every option list, dividechars, min_width, focus and maxcol: no exception, widths "
     "non-negative, given/packed columns own-or-zero, focus column kept whenever it alone fits, visible columns + dividers <= "
-    "maxcol, exact fill when a weighted column is shown (given every slot is >= 1 wide: min_width >= 1, packed sizes >= 1; "
-    "refuted by witness otherwise), shares of k weighted columns within (k-1)/2 of proportional when min_width does not "
-    "intervene, hence within ONE column for k <= 3.  REFUTED (theorem + replayed on the code, known finding "
+    "maxcol, exact fill when a weighted column is shown (every slot >= 1 wide; refuted by witness otherwise), shares of k "
+    "weighted columns within (k-1)/2 of proportional when min_width does not intervene, hence within ONE column for k <= 3.  "
+    "Columns as an OBJECT (model with _cache_maxcol/_cache_column_widths and _invalidate): cache transparency for every history "
+    "of layouts, focus moves, contents modifications and packed children changing size (cw_cache_transparent); refuted for plain "
+    "assignments to dividechars/min_width without _invalidate().  REFUTED (theorem + replayed on the code, known finding "
     "C19-proportional-beyond-one-column): 'within one column' for k >= 4 (Columns and Pile).  Pile box rows: non-negative, "
-    "given/packed own size, sum = maxrow when they fit, same (k-1)/2 proportional bound.  GridFlow: rows concatenate to all cells "
-    "in order at min(cell width, maxcol), no row empty, every row fits.  Padding/Filler/Overlay: the size handed to the child "
-    "in each mode, never negative, margins + child = available.  The hand models are tied to the code by an exact "
-    "extracted-model correspondence (60k+ calls per quick run) and the property-text oracle.")
+    "given/packed own size, sum = maxrow when they fit, same (k-1)/2 bound.  GridFlow: rows concatenate to all cells in order "
+    "at min(cell width, maxcol), no row empty, every row fits; composed with its parts: every row is placed inside maxcol by the "
+    "translated padding function and its inner Columns shows every cell at its width; one row at the natural (packed) width.  "
+    "Padding/Filler/Overlay: the size handed to the child in each mode, never negative, margins + child = available; "
+    "Overlay.render places the (trimmed) top canvas inside the bottom canvas, exactly filling it with the margins.  The hand "
+    "models are tied to the code by an exact extracted-model correspondence (70k+ cases per quick run, histories through the "
+    "stateful model) and the property-text oracle.")
 C19.level_note = (
     "Trusted: Coq kernel, py2v translator (+ the exact-rational reading of int(E/D+0.5), valid below 2^50), extraction + OCaml "
     "driver, the hand-written Model/Layout.v (validated by correspondence, not proved against Python), stub children, the Python "
